@@ -324,6 +324,10 @@ Handle(ll, e) ==
     IF Gone(cur) THEN [vts |-> vts, gh |-> gh, msgs |-> <<>>]
     ELSE [vts |-> vts, gh |-> [gh EXCEPT ![s].lastText = e.out],
           msgs |-> (IF Text(cur.t) = e.out THEN <<>> ELSE <<Msg("CONF", ll, "what=text owners={\"C09\", \"C16\"}")>>)
+                   (* the real util::TextUnwrapper over lines() against the specification's *)
+                   \o (IF "unwrap" \in DOMAIN e
+                         /\ e.unwrap # (LET u == Unwrap(cur.t.buf.lines, <<>>) IN IF u.carry # <<>> THEN Append(u.out, u.carry) ELSE u.out)
+                       THEN <<Msg("CONF", ll, "what=unwrap owners={\"C09\", \"C14\"} TextUnwrapper over lines() differs from the specification")>> ELSE <<>>)
                    \o (IF gh[s].snap # NoLine /\ ~gh[s].snapResized /\ cur.t.alt /\ e.out # BufText(gh[s].snap.c)
                        THEN <<Msg("FAIL C16", ll, "text() changed during the excursion")>> ELSE <<>>)]
   ELSE IF k = "rel" THEN
